@@ -651,7 +651,7 @@ struct ZoneEngine : Engine {
 			int64_t t = o.arg(0);
 			if (o.kind != "L" && o.kind != "R")
 				continue;
-			if (t < -12000000000LL || t > 60000000000LL)
+			if (t < -11644000000LL || t > 60000000000LL)
 				continue;	/* years 1601..3800 or so */
 			if (!m.ent.empty() && t < m.ent.front().t)
 				continue;
@@ -711,7 +711,7 @@ struct ZoneEngine : Engine {
 				pv = tr(m.ent[(size_t)idx].t, m.ent[(size_t)idx - 1].off) + " <- " + tr(m.ent[(size_t)idx].t, m.ent[(size_t)idx].off);
 			expect = nx + "\t/sim/zi/Z\n" + pv + "\t/sim/zi/Z\n";
 			for (auto &e : m.ent)
-				if (e.t < -12000000000LL || e.t > 60000000000LL)
+				if (e.t < -11644000000LL || e.t > 60000000000LL)
 					return v;
 		}
 		RunResult r = run_plan(q);
